@@ -6,7 +6,7 @@ import traceback
 
 from .model import Program, AnalysisError, Inconclusive
 from .resolve import Resolver
-from .norm import normalize_calls, normalize_membership, normalize_ifexp
+from .norm import normalize_calls, normalize_membership, normalize_ifexp, normalize_next_genexp
 from .excflow import ExcFlow
 from .effects import Effects
 
@@ -52,6 +52,7 @@ class Ctx:
         self.calls_normalised = normalize_calls(self.P, self.R)
         normalize_membership(self.P)
         normalize_ifexp(self.P)
+        normalize_next_genexp(self.P)
         self._X = None
         self.E = Effects(self.P, self.R)
         self.tier = tier
